@@ -15,7 +15,8 @@ RULE = ("per-run seed -> codec knobs (block limit 1..16/128, compression 0..9, i
         "to spill to run files, compound/loose, mmap on/off, write-buffer size) + a history of 1-5 committing transactions "
         "with merges (posting lists get re-blocked) and restarts; after every commit every posting list, term-info record and "
         "vector is read back and compared with the model. Non-trivial = >=1 commit and >=1 full read-back; distinct = "
-        "distinct event-log SHA-256.")
+        "distinct event-log SHA-256."
+        ' 15% of runs write through MpWriter (merged mode).')
 ASSUMPTIONS = ["expected postings = what field.index()/format.word_values produced for the document (the property's own definition); analysis is trusted",
                "term statistics are compared with the aggregates of the list only on readers without deletions (term-info records are physical: they still count deleted documents until a merge)",
                "the plain-text codec is write-only debugging output (no term-info reader round trip through the storage layer) and is not covered; the in-memory codec is covered through a BufferedWriter phase in 30% of runs"]
